@@ -353,15 +353,19 @@ func runC16(c *Ctx) {
 	for _, name := range []string{"Write", "AsyncWrite"} {
 		fn := p.Method(ws, "Stream", name)
 		b := fn.Params[1]
-		for _, in := range append(asInstrs(callsToFn(fn, acquire)), asInstrs(callsToFn(fn, w.prepareWrite))...) {
+		for _, dc := range deepCallsTo(fn, acquire, w.prepareWrite) {
+			in := dc.Site
 			good := false
-			for _, l := range guardsOf(in.Block()) {
-				op, y, x, ok := l.cmpWhere(func(v ssa.Value) bool { return loadOfField(v, w.maxMsg) })
-				op = mirrorOp(op) // read as: x OP max
-				if ok && op == token.LEQ && loadOfField(y, w.maxMsg) {
-					if lc, ok := stripConv(x).(*ssa.Call); ok {
-						if bi, ok := lc.Call.Value.(*ssa.Builtin); ok && bi.Name() == "len" && resolveCell(lc.Call.Args[0]) == ssa.Value(b) {
-							good = true
+			// the guard may sit in front of the call in Write/AsyncWrite or inside the helper that acquires and queues
+			for _, blk := range []*ssa.BasicBlock{dc.Site.Block(), dc.Call.Block()} {
+				for _, l := range guardsOf(blk) {
+					op, y, x, ok := l.cmpWhere(func(v ssa.Value) bool { return loadOfField(v, w.maxMsg) })
+					op = mirrorOp(op) // read as: x OP max
+					if ok && op == token.LEQ && loadOfField(y, w.maxMsg) {
+						if lc, ok := stripConv(x).(*ssa.Call); ok {
+							if bi, ok := lc.Call.Value.(*ssa.Builtin); ok && bi.Name() == "len" && resolveCell(dc.translate(resolveCell(lc.Call.Args[0]))) == ssa.Value(b) {
+								good = true
+							}
 						}
 					}
 				}
